@@ -7,6 +7,7 @@ import (
 	"go/token"
 	"go/types"
 	"os"
+	"strconv"
 	"strings"
 )
 
@@ -23,6 +24,8 @@ func init() {
 			{ID: "C13.R4", Floor: 2, Doc: "context.Canceled / DeadlineExceeded / ErrNotFound return before the policy is consulted", Run: c13r4},
 			{ID: "C13.R5", Floor: 6, Doc: "single result: capacity-1 channel, guarded send, deferred cancel, executions run on the context they were handed", Run: c13r5},
 			{ID: "C13.R6", Floor: 2, Doc: "last attempt's error recorded before every retry", Run: c13r6},
+			{ID: "C13.R7", Floor: 8, Doc: "DowngradingConsistencyRetryPolicy.GetRetryType is the documented decision table (a timed-out write is never sent to another host)", Run: c13r7},
+			{ID: "C13.R8", Floor: 4, Doc: "every attempt is counted: Query.attempt / Batch.attempt add exactly 1 to the total the retry policies consult, on every path", Run: c13r8},
 		},
 	})
 }
@@ -667,4 +670,220 @@ func c13r6(p *Program, r *Report) {
 	r.Check(ret, fi.Decl, "(*queryExecutor).do returns the last recorded error when the hosts run out", "&Iter{err: lastErr}", "when no host is left the executor does not return the last attempt's error")
 	_ = info
 	_ = constant.MakeBool
+}
+
+// c13r7: the decision table of DowngradingConsistencyRetryPolicy (policies.go doc comment, DataStax semantics):
+//
+//	unavailable:   a replica alive -> Retry, none -> Rethrow
+//	read timeout:  Retry
+//	write timeout: SIMPLE / BATCH / COUNTER: acknowledged by a replica -> Ignore, by none -> Rethrow;
+//	               UNLOGGED_BATCH -> Retry; every other write type (CAS, BATCH_LOG, VIEW, CDC) -> Rethrow
+//	anything else: RetryNextHost
+//
+// Every path of GetRetryType (enumerated by the path interpreter) must return what the table says for every
+// scenario the path stands for. In particular a write that timed out - it may have been applied - is never handed to
+// the next host.
+func c13r7(p *Program, r *Report) {
+	fi := r.NeedFunc("(*DowngradingConsistencyRetryPolicy).GetRetryType")
+	if fi == nil {
+		return
+	}
+	_ = fi.Pkg.TypesInfo
+	tr := newReadTracer(p)
+	tr.prims = map[string]string{}
+	tr.noAuto = func(string) bool { return true }
+	tr.markTypeCases = true
+	for _, c := range p.privateCallees(fi) {
+		tr.inline[c.Name] = true
+	}
+	type scen struct {
+		kind, wt string
+		acked    bool // received > 0 / alive > 0
+	}
+	spec := func(s scen) string {
+		switch s.kind {
+		case "*RequestErrUnavailable":
+			if s.acked {
+				return "Retry"
+			}
+			return "Rethrow"
+		case "*RequestErrReadTimeout":
+			return "Retry"
+		case "*RequestErrWriteTimeout":
+			switch s.wt {
+			case "SIMPLE", "BATCH", "COUNTER":
+				if s.acked {
+					return "Ignore"
+				}
+				return "Rethrow"
+			case "UNLOGGED_BATCH":
+				return "Retry"
+			}
+			return "Rethrow"
+		}
+		return "RetryNextHost"
+	}
+	var scens []scen
+	for _, k := range []string{"*RequestErrUnavailable", "*RequestErrReadTimeout", "*RequestErrWriteTimeout", "other"} {
+		for _, w := range []string{"SIMPLE", "BATCH", "COUNTER", "UNLOGGED_BATCH", "<other>"} {
+			for _, a := range []bool{true, false} {
+				scens = append(scens, scen{k, w, a})
+			}
+		}
+	}
+	covered := map[scen]bool{}
+	paths := tr.run(fi, 4)
+	if len(tr.unsup) > 0 {
+		r.Unresolved("DowngradingConsistencyRetryPolicy.GetRetryType: %s", strings.Join(tr.unsup, "; "))
+		return
+	}
+	npaths := 0
+	for _, st := range paths {
+		if st.retStmt == nil || len(st.retStmt.Results) != 1 {
+			continue
+		}
+		got := exprStr(ast.Unparen(st.retStmt.Results[0]))
+		// what the path decided
+		kinds := map[string]bool{}
+		isDefault := false
+		for _, it := range flat(st.trace) {
+			if it.Prim == "typecase" {
+				for _, t := range strings.Split(it.Arg, ",") {
+					t = strings.TrimSpace(t)
+					if t == "default" {
+						isDefault = true
+					} else {
+						kinds[t] = true
+					}
+				}
+			}
+		}
+		var wtIn map[string]bool
+		wtOut := map[string]bool{}
+		for subj, ss := range st.sel {
+			if !strings.HasSuffix(subj, ".WriteType") {
+				continue
+			}
+			if ss.in != nil {
+				wtIn = map[string]bool{}
+				for c := range ss.in {
+					if v, err := strconv.Unquote(c); err == nil {
+						wtIn[v] = true
+					}
+				}
+			}
+			for c := range ss.out {
+				if v, err := strconv.Unquote(c); err == nil {
+					wtOut[v] = true
+				}
+			}
+		}
+		ack, ackKnown := false, false
+		for atom, v := range st.assume {
+			a := strings.ReplaceAll(atom, " ", "")
+			if strings.HasPrefix(a, "0<") && (strings.HasSuffix(a, ".Received") || strings.HasSuffix(a, ".Alive")) {
+				ack, ackKnown = v, true
+			}
+			if strings.HasSuffix(a, ".Received==0") || strings.HasSuffix(a, ".Alive==0") || strings.HasSuffix(a, ".Received<1") || strings.HasSuffix(a, ".Alive<1") {
+				ack, ackKnown = !v, true
+			}
+		}
+		npaths++
+		var bad []string
+		for _, sc := range scens {
+			// consistent with the path?
+			if isDefault {
+				if sc.kind != "other" {
+					continue
+				}
+			} else if len(kinds) > 0 {
+				if !kinds[sc.kind] {
+					continue
+				}
+			} else {
+				continue // the path did not go through the type switch at all
+			}
+			if sc.kind == "*RequestErrWriteTimeout" {
+				if wtIn != nil && !wtIn[sc.wt] {
+					continue
+				}
+				if wtIn == nil && (wtOut[sc.wt] || false) {
+					continue
+				}
+			} else if sc.wt != "SIMPLE" {
+				continue // the write type only matters for write timeouts: one representative
+			}
+			if ackKnown && ack != sc.acked {
+				continue
+			}
+			covered[sc] = true
+			if want := spec(sc); want != got {
+				bad = append(bad, fmt.Sprintf("%s%s%s: returns %s, the documented decision is %s", sc.kind, ifs(sc.kind == "*RequestErrWriteTimeout", " of type "+sc.wt, ""), ifs(sc.acked, " with a replica alive/acknowledging", " with no replica alive/acknowledging"), got, want))
+			}
+		}
+		if len(bad) > 3 {
+			bad = append(bad[:3], fmt.Sprintf("... and %d more", len(bad)-3))
+		}
+		r.Check(len(bad) == 0, st.retStmt, fmt.Sprintf("DowngradingConsistencyRetryPolicy.GetRetryType path [%s] returns the documented decision", assumeStr(st)), got,
+			strings.Join(bad, "; ")+" - a write that timed out may already be applied: handing it to the next host executes it twice, and the caller never sees the timeout")
+	}
+	for _, sc := range scens {
+		if sc.kind != "*RequestErrWriteTimeout" && sc.wt != "SIMPLE" {
+			continue
+		}
+		if !covered[sc] {
+			r.Bad(fi.Decl, "DowngradingConsistencyRetryPolicy.GetRetryType decides "+sc.kind+" "+sc.wt, "no path of GetRetryType stands for this case")
+		}
+	}
+	if npaths == 0 {
+		r.Unresolved("DowngradingConsistencyRetryPolicy.GetRetryType: no path returns a decision")
+	}
+}
+
+// c13r8: retry policies decide from Attempts(). The counter is fed by (*Query).attempt / (*Batch).attempt, which the
+// executor calls after every request. Each must add exactly one attempt on every path (also when no observer is
+// installed).
+func c13r8(p *Program, r *Report) {
+	for _, name := range []string{"(*Query).attempt", "(*Batch).attempt"} {
+		fi := r.NeedFunc(name)
+		if fi == nil {
+			continue
+		}
+		g := p.GraphOf(fi)
+		info := g.Info
+		var counted *ast.CallExpr
+		ef := g.Events(func(st Step) []string {
+			if st.Kind != StNode {
+				return nil
+			}
+			var evs []string
+			for _, c := range callsIn(st.Node) {
+				if isCallTo(info, c, "(*queryMetrics).attempt") {
+					evs = append(evs, "count")
+					counted = c
+				}
+			}
+			return evs
+		})
+		n := 0
+		for _, e := range g.Exits() {
+			if e.Kind == ExitPanic {
+				continue
+			}
+			s, ok := ef.ExitState(e)
+			if !ok {
+				continue
+			}
+			n++
+			r.Check(s.Must["count"] && s.Max["count"] == 1, e.Node, name+" exit "+exitDesc(p, e)+" has counted the attempt exactly once", "metrics.attempt(1, ...) on every path",
+				"an exit of "+name+" is reached without the attempt having been added to the query's metrics (or after adding it twice): Attempts() stays behind, so retry policies that bound the number of attempts keep granting retries (or stop early)")
+		}
+		if n == 0 {
+			r.Unresolved("%s has no exits", name)
+		}
+		if counted != nil && len(counted.Args) >= 1 {
+			k, isK := constInt(info, counted.Args[0])
+			r.Check(isK && k == 1, counted, name+" adds one attempt", "metrics.attempt(1, ...)", "an execution is counted as "+exprStr(counted.Args[0])+" attempts")
+		}
+	}
 }
